@@ -26,7 +26,7 @@ FLOORS = {"quick": {"departures_checked": 30000, "waited_for_tokens": 5000, "cap
                        "oversize_packets": 10000, "pair_inequalities": 4000000, "peak_spacings": 100000,
                        "colours_checked": 200000, "red": 20000, "yellow": 20000, "green": 20000,
                        "green_pairs": 1000000, "must_be_green": 6000, "zero_peak_bucket_heads": 1000}}
-KEYS = tuple(FLOORS["quick"].keys()) + ("tb_cases", "trtb_cases", "exact_cases", "float_cases")
+KEYS = tuple(FLOORS["quick"].keys()) + ("tb_cases", "trtb_cases", "exact_cases", "float_cases", "fast_cases", "precoloured_packets")
 
 
 def plan(tier):
@@ -40,7 +40,13 @@ def ncases(tier):
 def gen_case(rng, i):
     flavour = "exact" if rng.random() < 0.65 else "float"
     two = rng.random() < 0.5
-    if flavour == "exact":
+    fast = (not two) and rng.random() < 0.12
+    if fast:
+        # Gbit/s rates with sub-microsecond gaps: tokens worth a fraction of a microsecond matter
+        flavour = "float"
+        rate = rng.choice([1e9, 4e8])
+        sizes = [100, 64]
+    elif flavour == "exact":
         rate = rng.choice([8192, 4096, 16384])            # bytes/s = rate/8 = power of two
         sizes = rng.choice([[128], [64, 256], [128, 512, 1024], [256, 2048]])
     else:
@@ -57,7 +63,18 @@ def gen_case(rng, i):
             shift += rng.choice([8, 32, 64])
         a["t"] += shift
         a["age"] = 0
-    case = {"flavour": flavour, "arrivals": arr}
+    if fast:
+        B = rng.choice([3000, 1000, 500])
+        t = 0.0
+        for a in arr:
+            t += rng.choice([0.9e-6, 0.5e-6, 0.3e-6, 2e-6, 0.0])
+            a["t"] = t
+            a["split"] = 0
+    # some packets arrive already carrying a colour from an upstream meter
+    for a in arr:
+        if rng.random() < 0.25:
+            a["precolour"] = rng.choice(["green", "yellow", "red"])
+    case = {"flavour": flavour, "arrivals": arr, "fast": fast}
     if not two:
         case.update({"kind": "tb", "rate": rate, "bucket": B,
                      "peak": rng.choice([None, None, rate * 4, rate * 2, rate * 8, rate, rate / 2])})
@@ -101,7 +118,7 @@ def run_case(case, stats):
     net = vnet.Net()
     env = net.env
     exact = case["flavour"] == "exact"
-    eq = (lambda a, b: a == b) if exact else vnet.close
+    eq = (lambda a, b: a == b) if exact else (lambda a, b: vnet.close(a, b, rel=1e-9, abs_=1e-13))
     if case["kind"] == "tb":
         el = TokenBucket(env, case["rate"], case["bucket"], peak=case["peak"])
         rate, B, peak = case["rate"], case["bucket"], case["peak"]
@@ -118,7 +135,17 @@ def run_case(case, stats):
     sink = net.recorder("sink")
     el.out = sink
     net.tap_put(el, "tb")
-    net.drivers(el, case["arrivals"])
+
+    def precolour(p, a):
+        if a.get("precolour"):
+            p.color = a["precolour"]
+            stats["precoloured_packets"] += 1
+    for d in (0, 1):
+        mine = [a for a in case["arrivals"] if a.get("drv", 0) % 2 == d]
+        if mine:
+            net.driver(el, mine, on_inject=precolour)
+    if case.get("fast"):
+        stats["fast_cases"] += 1
     err = net.run()
     if err:
         bad(err, "the run raised", net.errors[-1] if net.errors else err)
